@@ -3,6 +3,7 @@
    sections being atomic and race-free means for the Go code is an assumption observed by
    the -race stress harness, not proved: the claim for C19 is PARTIAL. *)
 From Verif Require Import C19.Proofs.
+From VerifGen Require Import Consts.
 Open Scope N_scope.
 
 (* generic: a schedule executes some interleaving of the threads' actions *)
@@ -223,6 +224,16 @@ Proof.
   - intros a. apply wexec_index_mono.
 Qed.
 Print Assumptions wait_for_index_no_lost_wakeup.
+
+(* The theorem above is about a waiter whose index check and channel fetch are ONE read
+   section.  That the code has this shape is re-derived from services/meta/client.go on every
+   run by the translator (tools/genconsts/c19.go: waitForIndex reads cacheData.Index and the
+   changed channel itself under exactly one lock acquisition): a change that splits the section
+   makes this obligation fail, and [wait_for_index_two_sections_refuted] is the schedule on
+   which such code sleeps for ever. *)
+Theorem wait_for_index_is_one_section : c19_wait_for_index_one_section = true.
+Proof. reflexivity. Qed.
+Print Assumptions wait_for_index_is_one_section.
 
 (* index check and channel fetch in two read sections: the waiter sleeps for ever *)
 Theorem wait_for_index_two_sections_refuted :
